@@ -1,12 +1,598 @@
 /-
-  Proofs/C03Byteswap.lean — helper lemmas for the C03 property files.
+  Proofs/C03Byteswap.lean — helper lemmas for Props/C03_Byteswap.lean (byte reversal, the `byteswap` loops).
+  Everything lives in the sub-namespace `BM.C03.Byteswap` so that the names cannot collide with the helper files
+  of the other C03 parts.
 -/
 import BitstringModel.Model.C03
 import BitstringModel.Proofs.C03
 import Mathlib.Tactic.Ring
 import Mathlib.Tactic.Linarith
 import Mathlib.Data.List.Basic
-namespace BM.C03
-open BM
+namespace BM.C03.Byteswap
+open BM BM.C03
 
-end BM.C03
+/-! ### `revBytesAux` / `revBytes` -/
+
+theorem revBytesAux_nil (f : Nat) : revBytesAux f [] = [] := by
+  cases f <;> simp [revBytesAux]
+
+theorem revBytesAux_succ (f : Nat) (b : Bits) :
+    revBytesAux (f + 1) b = if b.isEmpty then [] else revBytesAux f (b.drop 8) ++ b.take 8 := rfl
+
+theorem revBytesAux_fuel (f g : Nat) (b : Bits) (hf : b.length ≤ 8 * f) (hg : b.length ≤ 8 * g) :
+    revBytesAux f b = revBytesAux g b := by
+  induction f generalizing g b with
+  | zero =>
+    have : b = [] := List.eq_nil_of_length_eq_zero (by omega)
+    subst this
+    rw [revBytesAux_nil, revBytesAux_nil]
+  | succ f ih =>
+    cases g with
+    | zero =>
+      have : b = [] := List.eq_nil_of_length_eq_zero (by omega)
+      subst this
+      rw [revBytesAux_nil, revBytesAux_nil]
+    | succ g =>
+      rw [revBytesAux_succ, revBytesAux_succ]
+      by_cases hb : b.isEmpty
+      · simp [hb]
+      · rw [if_neg hb, if_neg hb]
+        rw [ih g (b.drop 8) (by rw [List.length_drop]; omega) (by rw [List.length_drop]; omega)]
+
+theorem revBytes_eq_aux (f : Nat) (b : Bits) (hf : b.length ≤ 8 * f) : revBytes b = revBytesAux f b := by
+  unfold revBytes
+  exact revBytesAux_fuel _ _ _ (by omega) hf
+
+theorem revBytesAux_length (f : Nat) (b : Bits) (hf : b.length ≤ 8 * f) : (revBytesAux f b).length = b.length := by
+  induction f generalizing b with
+  | zero =>
+    have : b = [] := List.eq_nil_of_length_eq_zero (by omega)
+    subst this
+    rfl
+  | succ f ih =>
+    rw [revBytesAux_succ]
+    by_cases hb : b.isEmpty
+    · simp only [hb, if_true]
+      rw [List.isEmpty_iff] at hb
+      subst hb
+      rfl
+    · rw [if_neg hb]
+      rw [List.length_append, ih (b.drop 8) (by rw [List.length_drop]; omega), List.length_drop, List.length_take]
+      omega
+
+theorem revBytes_length (b : Bits) : (revBytes b).length = b.length :=
+  revBytesAux_length _ _ (by omega)
+
+theorem revBytes_nil : revBytes [] = [] := rfl
+
+theorem revBytes_append (a b : Bits) (ha : a.length = 8) : revBytes (a ++ b) = revBytes b ++ a := by
+  rw [revBytes_eq_aux (b.length + 1) (a ++ b) (by rw [List.length_append]; omega), revBytesAux_succ]
+  have hne : (a ++ b).isEmpty = false := by
+    cases a with
+    | nil => simp at ha
+    | cons x xs => rfl
+  simp only [hne]
+  rw [List.drop_left' ha, List.take_left' ha]
+  rfl
+
+theorem revBytes_append_right (m : Nat) (x a : Bits) (ha : a.length = 8) (hx : x.length = 8 * m) :
+    revBytes (x ++ a) = a ++ revBytes x := by
+  induction m generalizing x with
+  | zero =>
+    have : x = [] := List.eq_nil_of_length_eq_zero (by omega)
+    subst this
+    have := revBytes_append a [] ha
+    simp only [List.append_nil] at this
+    simp [this, revBytes_nil]
+  | succ m ih =>
+    have ht : (x.take 8).length = 8 := by rw [List.length_take]; omega
+    have hd : (x.drop 8).length = 8 * m := by rw [List.length_drop]; omega
+    conv_lhs => rw [← List.take_append_drop 8 x]
+    rw [List.append_assoc, revBytes_append _ _ ht, ih _ hd, List.append_assoc, ← revBytes_append _ _ ht,
+      List.take_append_drop]
+
+theorem revBytes_involutive_aux (m : Nat) (b : Bits) (h : b.length = 8 * m) : revBytes (revBytes b) = b := by
+  induction m generalizing b with
+  | zero =>
+    have : b = [] := List.eq_nil_of_length_eq_zero (by omega)
+    subst this
+    rfl
+  | succ m ih =>
+    have ht : (b.take 8).length = 8 := by rw [List.length_take]; omega
+    have hd : (b.drop 8).length = 8 * m := by rw [List.length_drop]; omega
+    conv_lhs => rw [← List.take_append_drop 8 b]
+    rw [revBytes_append _ _ ht, revBytes_append_right m _ _ ht (by rw [revBytes_length]; exact hd), ih _ hd,
+      List.take_append_drop]
+
+theorem revBytes_involutive (b : Bits) (h : 8 ∣ b.length) : revBytes (revBytes b) = b := by
+  obtain ⟨m, hm⟩ := h
+  exact revBytes_involutive_aux m b hm
+
+theorem revBytes_getElem (b : Bits) (m : Nat) (h : b.length = 8 * m) (j i : Nat) (hj : j < m) (hi : i < 8) :
+    (revBytes b)[8 * (m - 1 - j) + i]? = b[8 * j + i]? := by
+  induction m generalizing b j with
+  | zero => omega
+  | succ m ih =>
+    have ht : (b.take 8).length = 8 := by rw [List.length_take]; omega
+    have hd : (b.drop 8).length = 8 * m := by rw [List.length_drop]; omega
+    have hb : b = b.take 8 ++ b.drop 8 := (List.take_append_drop 8 b).symm
+    have hr : revBytes b = revBytes (b.drop 8) ++ b.take 8 := by
+      conv_lhs => rw [hb]
+      exact revBytes_append _ _ ht
+    rw [hr]
+    cases j with
+    | zero =>
+      have hl : (revBytes (b.drop 8)).length ≤ 8 * (m + 1 - 1 - 0) + i := by rw [revBytes_length, hd]; omega
+      rw [List.getElem?_append_right hl, revBytes_length, hd]
+      have e : 8 * (m + 1 - 1 - 0) + i - 8 * m = i := by omega
+      rw [e, List.getElem?_take_of_lt hi]
+      simp
+    | succ j =>
+      have hl : 8 * (m + 1 - 1 - (j + 1)) + i < (revBytes (b.drop 8)).length := by rw [revBytes_length, hd]; omega
+      rw [List.getElem?_append_left hl]
+      have e : 8 * (m + 1 - 1 - (j + 1)) + i = 8 * (m - 1 - j) + i := by congr 2; omega
+      rw [e, ih _ hd j (by omega), List.getElem?_drop]
+      congr 1
+      omega
+
+/-! ### `slc` arithmetic, frames -/
+
+theorem slc_take {α} (l : List α) (a b n : Nat) (h : a + n ≤ b) : (slc l a b).take n = slc l a (a + n) := by
+  unfold slc
+  rw [List.take_take]
+  congr 1
+  omega
+
+theorem slc_drop {α} (l : List α) (a b n : Nat) : (slc l a b).drop n = slc l (a + n) b := by
+  unfold slc
+  rw [List.drop_take, List.drop_drop]
+  congr 1
+  omega
+
+/-- A list whose tail from `c` on is that of `l`. -/
+theorem frame_take {α} (X l : List α) (c : Nat) (hX : X.length = c) : (X ++ l.drop c).take c = X :=
+  List.take_left' hX
+
+theorem frame_drop {α} (X l : List α) (c d : Nat) (hX : X.length = c) (hcd : c ≤ d) :
+    (X ++ l.drop c).drop d = l.drop d := by
+  have e : d = c + (d - c) := by omega
+  rw [e, ← List.drop_drop, List.drop_left' hX, List.drop_drop]
+
+theorem frame_slc {α} (X l : List α) (c d : Nat) (hX : X.length = c) :
+    slc (X ++ l.drop c) c d = slc l c d := by
+  unfold slc
+  rw [List.drop_left' hX]
+
+/-! ### `_reversebytes` -/
+
+theorem reversebytes_in_range (l : Bits) (s e : Nat) (hse : s ≤ e) (he : e ≤ l.length) (h8 : 8 ∣ e - s) :
+    Alg._reversebytes l s e = .ok (l.take s ++ revBytes (slc l s e) ++ l.drop e) := by
+  unfold Alg._reversebytes
+  simp only
+  have hlen : (slc l s e).length = e - s := slc_length_of_le l s e he
+  have hpad : (8 - (slc l s e).length % 8) % 8 = 0 := by
+    rw [hlen]; omega
+  rw [hpad, List.replicate_zero, List.append_nil, setSlice_nonneg l _ s e hse he]
+  rfl
+
+/-! ### `swapGroups`, `swapRepeat` -/
+
+theorem swapGroups_length (sizes : List Nat) (b : Bits) : (Spec.swapGroups sizes b).length = b.length := by
+  induction sizes generalizing b with
+  | nil => rfl
+  | cons k ks ih =>
+    simp only [Spec.swapGroups, List.length_append, revBytes_length, ih, List.length_take, List.length_drop]
+    omega
+
+theorem swapGroups_involutive (sizes : List Nat) (b : Bits) (h : b.length = 8 * sizes.sum) :
+    Spec.swapGroups sizes (Spec.swapGroups sizes b) = b := by
+  induction sizes generalizing b with
+  | nil => rfl
+  | cons k ks ih =>
+    rw [List.sum_cons] at h
+    have ht : (b.take (8 * k)).length = 8 * k := by rw [List.length_take]; omega
+    have hd : (b.drop (8 * k)).length = 8 * ks.sum := by rw [List.length_drop]; omega
+    have hr : (revBytes (b.take (8 * k))).length = 8 * k := by rw [revBytes_length, ht]
+    simp only [Spec.swapGroups]
+    rw [List.take_left' hr, List.drop_left' hr, revBytes_involutive _ (by rw [ht]; exact ⟨k, rfl⟩), ih _ hd,
+      List.take_append_drop]
+
+theorem swapRepeat_length (k total : Nat) (sizes : List Nat) (b : Bits) :
+    (Spec.swapRepeat k total sizes b).length = b.length := by
+  induction k generalizing b with
+  | zero => rfl
+  | succ k ih =>
+    simp only [Spec.swapRepeat, List.length_append, swapGroups_length, ih, List.length_take, List.length_drop]
+    omega
+
+theorem swapRepeat_involutive (k : Nat) (sizes : List Nat) (b : Bits) (h : b.length = k * (8 * sizes.sum)) :
+    Spec.swapRepeat k (8 * sizes.sum) sizes (Spec.swapRepeat k (8 * sizes.sum) sizes b) = b := by
+  induction k generalizing b with
+  | zero => rfl
+  | succ k ih =>
+    rw [Nat.succ_mul k] at h
+    have ht : (b.take (8 * sizes.sum)).length = 8 * sizes.sum := by rw [List.length_take]; omega
+    have hd : (b.drop (8 * sizes.sum)).length = k * (8 * sizes.sum) := by rw [List.length_drop]; omega
+    have hr : (Spec.swapGroups sizes (b.take (8 * sizes.sum))).length = 8 * sizes.sum := by
+      rw [swapGroups_length, ht]
+    simp only [Spec.swapRepeat]
+    rw [List.take_left' hr, List.drop_left' hr, swapGroups_involutive _ _ ht, ih _ hd, List.take_append_drop]
+
+/-! ### the loops of ALG -/
+
+theorem swapOnce_eq (l : Bits) (sizes : List Nat) (bs : Nat) (h : bs + 8 * sizes.sum ≤ l.length) :
+    Alg.swapOnce l sizes bs =
+      .ok (l.take bs ++ Spec.swapGroups sizes (slc l bs (bs + 8 * sizes.sum)) ++ l.drop (bs + 8 * sizes.sum)) := by
+  induction sizes generalizing l bs with
+  | nil =>
+    simp only [Alg.swapOnce, List.sum_nil, Nat.mul_zero, Nat.add_zero, Spec.swapGroups, slc_self, List.append_nil,
+      List.take_append_drop]
+  | cons k ks ih =>
+    rw [List.sum_cons] at h ⊢
+    have h1 : bs + k * 8 ≤ l.length := by omega
+    have hslen : (slc l bs (bs + k * 8)).length = k * 8 := by rw [slc_length_of_le _ _ _ h1]; omega
+    have hXlen : (l.take bs ++ revBytes (slc l bs (bs + k * 8))).length = bs + k * 8 := by
+      rw [List.length_append, revBytes_length, hslen, List.length_take]; omega
+    simp only [Alg.swapOnce]
+    rw [reversebytes_in_range l bs (bs + k * 8) (by omega) h1 ⟨k, by omega⟩]
+    simp only
+    have hl' : bs + k * 8 + 8 * ks.sum ≤
+        (l.take bs ++ revBytes (slc l bs (bs + k * 8)) ++ l.drop (bs + k * 8)).length := by
+      rw [List.length_append, hXlen, List.length_drop]; omega
+    rw [ih _ (bs + k * 8) hl', frame_take _ _ _ hXlen, frame_slc _ _ _ _ hXlen,
+      frame_drop _ _ _ _ hXlen (by omega)]
+    simp only [Spec.swapGroups]
+    rw [slc_take _ _ _ _ (by omega), slc_drop]
+    have e1 : 8 * k = k * 8 := Nat.mul_comm _ _
+    have e2 : bs + k * 8 + 8 * ks.sum = bs + 8 * (k + ks.sum) := by omega
+    rw [e1, e2]
+    simp only [List.append_assoc]
+
+theorem swapLoop_eq_aux (cnt : Nat) (l : Bits) (sizes : List Nat) (total a : Nat) (ht : total = 8 * sizes.sum)
+    (h : a + cnt * total ≤ l.length) :
+    Alg.swapLoop cnt l sizes total (a + total) =
+      .ok (l.take a ++ Spec.swapRepeat cnt total sizes (slc l a (a + cnt * total)) ++ l.drop (a + cnt * total)) := by
+  induction cnt generalizing l a with
+  | zero =>
+    simp only [Alg.swapLoop, Nat.zero_mul, Nat.add_zero, Spec.swapRepeat, slc_self, List.append_nil,
+      List.take_append_drop]
+  | succ cnt ih =>
+    rw [Nat.succ_mul cnt total] at h ⊢
+    have h1 : a + 8 * sizes.sum ≤ l.length := by omega
+    have hXlen : (l.take a ++ Spec.swapGroups sizes (slc l a (a + total))).length = a + total := by
+      rw [List.length_append, swapGroups_length, slc_length_of_le _ _ _ (by omega), List.length_take]; omega
+    simp only [Alg.swapLoop, Nat.add_sub_cancel]
+    have hso := swapOnce_eq l sizes a h1
+    rw [← ht] at hso
+    rw [hso]
+    simp only
+    have hl' : a + total + cnt * total ≤
+        (l.take a ++ Spec.swapGroups sizes (slc l a (a + total)) ++ l.drop (a + total)).length := by
+      rw [List.length_append, hXlen, List.length_drop]; omega
+    rw [ih _ (a + total) hl', frame_take _ _ _ hXlen, frame_slc _ _ _ _ hXlen,
+      frame_drop _ _ _ _ hXlen (by omega)]
+    simp only [Spec.swapRepeat]
+    rw [slc_take _ _ _ _ (by omega), slc_drop]
+    have e2 : a + total + cnt * total = a + (cnt * total + total) := by omega
+    rw [e2]
+    simp only [List.append_assoc]
+
+theorem swapLoop_eq (cnt : Nat) (l : Bits) (sizes : List Nat) (a : Nat)
+    (h : a + cnt * (8 * sizes.sum) ≤ l.length) :
+    Alg.swapLoop cnt l sizes (8 * sizes.sum) (a + 8 * sizes.sum) =
+      .ok (l.take a ++ Spec.swapRepeat cnt (8 * sizes.sum) sizes (slc l a (a + cnt * (8 * sizes.sum))) ++
+        l.drop (a + cnt * (8 * sizes.sum))) :=
+  swapLoop_eq_aux cnt l sizes _ a rfl h
+
+/-- The trip count of `range(a + total, fb + 1, total)`. -/
+theorem rangeLen_count (a fb total : Nat) (ht : 0 < total) :
+    Py.rangeLen ((a + total : Nat) : Int) ((fb + 1 : Nat) : Int) (total : Int) = (fb - a) / total := by
+  unfold Py.rangeLen
+  have ht' : (total : Int) > 0 := by omega
+  rw [if_pos ht']
+  by_cases hc : a + total ≤ fb
+  · rw [if_pos (by omega)]
+    obtain ⟨d, hd⟩ : ∃ d, fb = a + total + d := ⟨fb - (a + total), by omega⟩
+    subst hd
+    have e1 : (((a + total + d + 1 : Nat) : Int) - ((a + total : Nat) : Int) - 1) = (d : Int) := by omega
+    have e2 : a + total + d - a = d + total := by omega
+    rw [e1, e2, Nat.add_div_right _ ht]
+    have e3 : (d : Int) / (total : Int) = ((d / total : Nat) : Int) := by simp
+    rw [e3]
+    generalize d / total = q
+    omega
+  · rw [if_neg (by omega)]
+    rw [Nat.div_eq_of_lt (by omega)]
+
+/-! ### SPEC in closed form -/
+
+/-- The number of patterns SPEC applies. -/
+def kOf (total a z : Nat) (rep : Bool) : Nat :=
+  if total = 0 then 0 else if rep then (z - a) / total else if a + total ≤ z then 1 else 0
+
+theorem kOf_mul_le (total a z : Nat) (rep : Bool) : kOf total a z rep * total ≤ z - a := by
+  unfold kOf
+  split
+  · omega
+  · split
+    · exact Nat.div_mul_le_self _ _
+    · split <;> omega
+
+theorem spec_byteswap_eq (l : Bits) (f : Fmt) (s e : Option Int) (rep : Bool) (a z : Nat) (sizes : List Nat)
+    (hv : validateSlice l.length s e = .ok (a, z)) (hf : fmtSizes f a z = .ok sizes) :
+    Spec.byteswap l f s e rep =
+      .ok (kOf (8 * sizes.sum) a z rep,
+        l.take a ++ Spec.swapRepeat (kOf (8 * sizes.sum) a z rep) (8 * sizes.sum) sizes
+          (slc l a (a + kOf (8 * sizes.sum) a z rep * (8 * sizes.sum))) ++
+        l.drop (a + kOf (8 * sizes.sum) a z rep * (8 * sizes.sum))) := by
+  unfold Spec.byteswap
+  rw [hv]
+  simp only
+  rw [hf]
+  simp only
+  by_cases h0 : 8 * sizes.sum = 0
+  · rw [if_pos h0]
+    have hk : kOf (8 * sizes.sum) a z rep = 0 := by unfold kOf; rw [if_pos h0]
+    rw [hk]
+    simp only [Nat.zero_mul, Nat.add_zero, Spec.swapRepeat, slc_self, List.append_nil, List.take_append_drop]
+  · rw [if_neg h0]
+    have hk : kOf (8 * sizes.sum) a z rep =
+        if rep = true then (z - a) / (8 * sizes.sum) else if a + 8 * sizes.sum ≤ z then 1 else 0 := by
+      unfold kOf; rw [if_neg h0]
+    rw [hk]
+
+theorem alg_byteswap_eq (l : Bits) (f : Fmt) (s e : Option Int) (rep : Bool)
+    (h : byteswapNoRepeatPastEnd l f s e rep = false) :
+    Alg.byteswap l f s e rep = Spec.byteswap l f s e rep := by
+  unfold byteswapNoRepeatPastEnd at h
+  cases hv : validateSlice l.length s e with
+  | error err => unfold Alg.byteswap Spec.byteswap; rw [hv]
+  | ok p =>
+    obtain ⟨a, z⟩ := p
+    have hz := validateSlice_ok hv
+    cases hf : fmtSizes f a z with
+    | error err => unfold Alg.byteswap Spec.byteswap; rw [hv]; simp only; rw [hf]
+    | ok sizes =>
+      rw [spec_byteswap_eq l f s e rep a z sizes hv hf]
+      rw [hv] at h
+      simp only at h
+      rw [hf] at h
+      simp only at h
+      unfold Alg.byteswap
+      rw [hv]
+      simp only
+      rw [hf]
+      simp only
+      by_cases h0 : 8 * sizes.sum = 0
+      · rw [if_pos h0]
+        have hk : kOf (8 * sizes.sum) a z rep = 0 := by unfold kOf; rw [if_pos h0]
+        rw [hk]
+        simp only [Nat.zero_mul, Nat.add_zero, Spec.swapRepeat, slc_self, List.append_nil, List.take_append_drop]
+      · rw [if_neg h0]
+        have hcnt : Py.rangeLen ((a + 8 * sizes.sum : Nat) : Int)
+            (((if rep = true then z else a + 8 * sizes.sum) + 1 : Nat) : Int) ((8 * sizes.sum : Nat) : Int) =
+            kOf (8 * sizes.sum) a z rep := by
+          rw [rangeLen_count _ _ _ (by omega)]
+          unfold kOf
+          rw [if_neg h0]
+          cases rep with
+          | true => simp
+          | false =>
+            have hfit : a + 8 * sizes.sum ≤ z := by
+              simp [h0] at h
+              omega
+            simp only [Bool.false_eq_true, if_false, if_pos hfit]
+            rw [Nat.add_sub_cancel_left, Nat.div_self (by omega)]
+        rw [hcnt]
+        have hle := kOf_mul_le (8 * sizes.sum) a z rep
+        rw [swapLoop_eq _ l sizes a (by omega)]
+
+/-! ### properties of the closed form -/
+
+theorem res_length (l : Bits) (a k total : Nat) (sizes : List Nat) (h : a + k * total ≤ l.length) :
+    (l.take a ++ Spec.swapRepeat k total sizes (slc l a (a + k * total)) ++ l.drop (a + k * total)).length =
+      l.length := by
+  rw [List.length_append, List.length_append, swapRepeat_length, slc_length_of_le _ _ _ h, List.length_take,
+    List.length_drop]
+  omega
+
+theorem res_prefix_length (l : Bits) (a k total : Nat) (sizes : List Nat) (h : a + k * total ≤ l.length) :
+    (l.take a ++ Spec.swapRepeat k total sizes (slc l a (a + k * total))).length = a + k * total := by
+  rw [List.length_append, swapRepeat_length, slc_length_of_le _ _ _ h, List.length_take]
+  omega
+
+theorem res_take (l : Bits) (a k total : Nat) (sizes : List Nat) (h : a + k * total ≤ l.length) :
+    (l.take a ++ Spec.swapRepeat k total sizes (slc l a (a + k * total)) ++ l.drop (a + k * total)).take a =
+      l.take a := by
+  rw [List.append_assoc]
+  exact List.take_left' (by rw [List.length_take]; omega)
+
+theorem res_drop (l : Bits) (a k total z : Nat) (sizes : List Nat) (h : a + k * total ≤ l.length)
+    (hz : a + k * total ≤ z) :
+    (l.take a ++ Spec.swapRepeat k total sizes (slc l a (a + k * total)) ++ l.drop (a + k * total)).drop z =
+      l.drop z :=
+  frame_drop _ _ _ _ (res_prefix_length l a k total sizes h) hz
+
+theorem res_slc (l : Bits) (a k total : Nat) (sizes : List Nat) (h : a + k * total ≤ l.length) :
+    slc (l.take a ++ Spec.swapRepeat k total sizes (slc l a (a + k * total)) ++ l.drop (a + k * total))
+      a (a + k * total) = Spec.swapRepeat k total sizes (slc l a (a + k * total)) := by
+  unfold slc
+  rw [List.append_assoc, List.drop_left' (by rw [List.length_take]; omega)]
+  apply List.take_left'
+  rw [swapRepeat_length]
+  have := slc_length_of_le l a (a + k * total) h
+  unfold slc at this
+  rw [this]
+
+theorem spec_byteswap_ok (l r : Bits) (f : Fmt) (s e : Option Int) (rep : Bool) (k : Nat)
+    (h : Spec.byteswap l f s e rep = .ok (k, r)) :
+    ∃ a z sizes, validateSlice l.length s e = .ok (a, z) ∧ fmtSizes f a z = .ok sizes ∧
+      k = kOf (8 * sizes.sum) a z rep ∧
+      r = l.take a ++ Spec.swapRepeat k (8 * sizes.sum) sizes (slc l a (a + k * (8 * sizes.sum))) ++
+        l.drop (a + k * (8 * sizes.sum)) := by
+  cases hv : validateSlice l.length s e with
+  | error err =>
+    unfold Spec.byteswap at h
+    rw [hv] at h
+    cases h
+  | ok p =>
+    obtain ⟨a, z⟩ := p
+    cases hf : fmtSizes f a z with
+    | error err =>
+      unfold Spec.byteswap at h
+      rw [hv] at h
+      simp only at h
+      rw [hf] at h
+      cases h
+    | ok sizes =>
+      rw [spec_byteswap_eq l f s e rep a z sizes hv hf] at h
+      injection h with h
+      injection h with h1 h2
+      subst h1
+      exact ⟨a, z, sizes, rfl, hf, rfl, h2.symm⟩
+
+theorem byteswap_length (l r : Bits) (f : Fmt) (s e : Option Int) (rep : Bool) (k : Nat)
+    (h : Spec.byteswap l f s e rep = .ok (k, r)) : r.length = l.length := by
+  obtain ⟨a, z, sizes, hv, hf, hk, hr⟩ := spec_byteswap_ok l r f s e rep k h
+  have hz := validateSlice_ok hv
+  have hle := kOf_mul_le (8 * sizes.sum) a z rep
+  rw [← hk] at hle
+  rw [hr]
+  exact res_length l a k _ sizes (by omega)
+
+theorem byteswap_frame (l r : Bits) (f : Fmt) (s e : Option Int) (rep : Bool) (k a z : Nat)
+    (h : Spec.byteswap l f s e rep = .ok (k, r)) (hv : validateSlice l.length s e = .ok (a, z)) :
+    r.take a = l.take a ∧ r.drop z = l.drop z := by
+  obtain ⟨a', z', sizes, hv', hf, hk, hr⟩ := spec_byteswap_ok l r f s e rep k h
+  rw [hv] at hv'
+  injection hv' with hv'
+  injection hv' with h1 h2
+  subst h1 h2
+  have hz := validateSlice_ok hv
+  have hle := kOf_mul_le (8 * sizes.sum) a z rep
+  rw [← hk] at hle
+  rw [hr]
+  exact ⟨res_take l a k _ sizes (by omega), res_drop l a k _ z sizes (by omega) (by omega)⟩
+
+theorem byteswap_count (l r : Bits) (f : Fmt) (s e : Option Int) (rep : Bool) (k a z : Nat) (sizes : List Nat)
+    (h : Spec.byteswap l f s e rep = .ok (k, r)) (hv : validateSlice l.length s e = .ok (a, z))
+    (hf : fmtSizes f a z = .ok sizes) :
+    k * (8 * sizes.sum) ≤ z - a ∧
+    (rep = true → 8 * sizes.sum ≠ 0 → z - a < (k + 1) * (8 * sizes.sum)) ∧
+    (rep = false → k ≤ 1) ∧ (8 * sizes.sum = 0 → k = 0 ∧ r = l) := by
+  rw [spec_byteswap_eq l f s e rep a z sizes hv hf] at h
+  injection h with h
+  injection h with hk hr
+  have hle := kOf_mul_le (8 * sizes.sum) a z rep
+  rw [hk] at hle
+  refine ⟨hle, ?_, ?_, ?_⟩
+  · intro hrep h0
+    rw [← hk]
+    unfold kOf
+    rw [if_neg h0, if_pos hrep, Nat.mul_comm]
+    exact Nat.lt_mul_div_succ _ (by omega)
+  · intro hrep
+    rw [← hk]
+    unfold kOf
+    subst hrep
+    split
+    · omega
+    · simp only [Bool.false_eq_true, if_false]
+      split <;> omega
+  · intro h0
+    have hk0 : k = 0 := by
+      rw [← hk]; unfold kOf; rw [if_pos h0]
+    refine ⟨hk0, ?_⟩
+    rw [← hr, hk, hk0]
+    simp only [Nat.zero_mul, Nat.add_zero, Spec.swapRepeat, slc_self, List.append_nil, List.take_append_drop]
+
+theorem byteswap_involutive (l r : Bits) (f : Fmt) (s e : Option Int) (rep : Bool) (k : Nat)
+    (h : Spec.byteswap l f s e rep = .ok (k, r)) : Spec.byteswap r f s e rep = .ok (k, l) := by
+  have hlen := byteswap_length l r f s e rep k h
+  obtain ⟨a, z, sizes, hv, hf, hk, hr⟩ := spec_byteswap_ok l r f s e rep k h
+  have hz := validateSlice_ok hv
+  have hle := kOf_mul_le (8 * sizes.sum) a z rep
+  rw [← hk] at hle
+  have hb : a + k * (8 * sizes.sum) ≤ l.length := by omega
+  rw [spec_byteswap_eq r f s e rep a z sizes (by rw [hlen]; exact hv) hf, ← hk]
+  have h1 : r.take a = l.take a := by rw [hr]; exact res_take l a k _ sizes hb
+  have h2 : r.drop (a + k * (8 * sizes.sum)) = l.drop (a + k * (8 * sizes.sum)) := by
+    rw [hr]; exact res_drop l a k _ _ sizes hb (Nat.le_refl _)
+  have h3 : slc r a (a + k * (8 * sizes.sum)) =
+      Spec.swapRepeat k (8 * sizes.sum) sizes (slc l a (a + k * (8 * sizes.sum))) := by
+    rw [hr]; exact res_slc l a k _ sizes hb
+  rw [h1, h2, h3, swapRepeat_involutive k sizes _ (by rw [slc_length_of_le _ _ _ hb]; omega),
+    take_slc_drop l a _ (by omega)]
+
+theorem byteswap_default (l : Bits) (s e : Option Int) (a z : Nat) (hv : validateSlice l.length s e = .ok (a, z))
+    (h8 : 8 ≤ z - a) :
+    Spec.byteswap l .none s e true =
+      .ok (1, l.take a ++ revBytes (slc l a (a + 8 * ((z - a) / 8))) ++ l.drop (a + 8 * ((z - a) / 8))) := by
+  have hz := validateSlice_ok hv
+  have hf : fmtSizes .none a z = .ok [(z - a) / 8] := rfl
+  rw [spec_byteswap_eq l .none s e true a z _ hv hf]
+  have hsum : [(z - a) / 8].sum = (z - a) / 8 := by simp
+  rw [hsum]
+  have hk : kOf (8 * ((z - a) / 8)) a z true = 1 := by
+    unfold kOf
+    rw [if_neg (by omega)]
+    simp only [if_true]
+    apply Nat.div_eq_of_lt_le <;> omega
+  rw [hk, Nat.one_mul]
+  have hb : a + 8 * ((z - a) / 8) ≤ l.length := by omega
+  have hlen : (slc l a (a + 8 * ((z - a) / 8))).length = 8 * ((z - a) / 8) := by
+    rw [slc_length_of_le _ _ _ hb]; omega
+  simp only [Spec.swapRepeat, Spec.swapGroups]
+  rw [List.take_of_length_le (Nat.le_of_eq hlen), List.drop_of_length_le (Nat.le_of_eq hlen),
+    List.take_of_length_le (Nat.le_of_eq hlen)]
+  simp
+
+theorem byteswap_errors (l : Bits) (f : Fmt) (s e : Option Int) (rep : Bool) :
+    (validateSlice l.length s e = .error .value → Spec.byteswap l f s e rep = .error .value) ∧
+    (∀ a z, validateSlice l.length s e = .ok (a, z) → fmtSizes f a z = .error .value →
+      Spec.byteswap l f s e rep = .error .value) := by
+  refine ⟨?_, ?_⟩
+  · intro hv
+    unfold Spec.byteswap
+    rw [hv]
+  · intro a z hv hf
+    unfold Spec.byteswap
+    rw [hv]
+    simp only
+    rw [hf]
+
+theorem fmtSizes_err_iff (f : Fmt) (a z : Nat) :
+    fmtSizes f a z = .error .value ↔
+      match f with
+      | .none => False
+      | .int k => k < 0
+      | .sizes ks => ∃ k ∈ ks, k < 0
+      | .str s => parseFmt s = none := by
+  cases f with
+  | none => simp [fmtSizes]
+  | int k =>
+    simp only [fmtSizes]
+    by_cases h0 : k = 0
+    · simp [h0]
+    · by_cases h1 : k < 0
+      · simp [h0, h1]
+      · simp [h0, h1]
+  | sizes ks =>
+    simp only [fmtSizes]
+    by_cases h : (ks.any (· < 0)) = true
+    · rw [if_pos h]
+      simp only [true_iff]
+      rw [List.any_eq_true] at h
+      obtain ⟨k, hk, hlt⟩ := h
+      exact ⟨k, hk, by simpa using hlt⟩
+    · rw [if_neg h]
+      simp only [reduceCtorEq, false_iff]
+      intro ⟨k, hk, hlt⟩
+      apply h
+      rw [List.any_eq_true]
+      exact ⟨k, hk, by simpa using hlt⟩
+  | str s =>
+    simp only [fmtSizes]
+    cases parseFmt s <;> simp
+
+end BM.C03.Byteswap
